@@ -548,6 +548,15 @@ func (k msgServer) UpdateConsumer(goCtx context.Context, msg *types.MsgUpdateCon
 	}
 	previousSpawnTime := previousInitializationParameters.SpawnTime
 
+	if msg.InitializationParameters == nil {
+		// the chain id might have been updated above: the stored initial height must still match its revision,
+		// otherwise the initialization parameters could not be stored again (e.g., when a launch fails)
+		if err = types.ValidateInitialHeight(previousInitializationParameters.InitialHeight, chainId); err != nil {
+			return &resp, errorsmod.Wrapf(types.ErrInvalidMsgUpdateConsumer,
+				"initial height does not match the chain id, provide new initialization parameters: %s", err.Error())
+		}
+	}
+
 	if msg.InitializationParameters != nil {
 		if !k.IsConsumerPrelaunched(ctx, consumerId) {
 			return &resp, errorsmod.Wrap(types.ErrInvalidMsgUpdateConsumer,
